@@ -506,13 +506,29 @@ def _fold_chars(t, table):
         if a is None or b is None:
             return None
         return a + b
-    c = is_call(t, "list", "tuple", "sorted")
+    c = is_call(t, "list", "tuple", "sorted", "set", "frozenset")
     if c and c[0]:
         inner = c[0][0]
         m = method_call(inner, "keys")
         d = m[0] if m else inner
         if d[0] == "dict":
             return [k[1] for k, v in d[1]]
+        return _fold_chars(inner, table)
+    if t[0] == "set":
+        return _fold_chars(("list", t[1]), table)
     if t[0] == "dict":
         return [k[1] for k, v in t[1]]
+    # A.union(B) / A | B
+    mu = method_call(t, "union")
+    if mu and mu[2]:
+        parts = [_fold_chars(mu[0], table)] + [_fold_chars(x, table) for x in mu[2]]
+        if all(p is not None for p in parts):
+            return [ch for p in parts for ch in p]
+    if t[0] == "binop" and t[1] == "|":
+        a, b = _fold_chars(t[2], table), _fold_chars(t[3], table)
+        if a is not None and b is not None:
+            return a + b
+    mk = method_call(t, "keys")
+    if mk and mk[0][0] == "dict":
+        return [k[1] for k, v in mk[0][1]]
     return None
